@@ -504,8 +504,9 @@ def _directed():
     case(lambda i: [C(0, [], D(i, 0, N, default=5, bounds=(0, 10))), C(1, [0], D(i, 0, N, default=6)),
                     A(1, D(i, 0, N, default=50)), C(2, [1], D(i, 0, N, doc='d')), A(1, D(i, 0, S)),
                     C(3, [1], D(i, 0, N, default=7)), A(1, D(i, 0, N, default=8)), C(4, [1], D(i, 0, N))])
-    # KNOWN FINDING: names of a dict-declared Selector are not inherited
-    case(lambda i: [C(0, [], D(i, 0, Sel, objects={'a': 1, 'b': 2})), C(1, [0], D(i, 0, Sel, default=2))])
+    # names of a dict-declared Selector are inherited together with the objects (fixed in 4c8b6fe); a list gives {}
+    case(lambda i: [C(0, [], D(i, 0, Sel, objects={'a': 1, 'b': 2})), C(1, [0], D(i, 0, Sel, default=2)),
+                    C(2, [1], D(i, 0, Sel, objects=[7, 8])), C(3, [1]), A(3, D(i, 0, Sel, default=1)), C(4, [2, 3], D(i, 0, Sel))])
     return out
 
 
@@ -824,12 +825,4 @@ def classify(case, impl, fail):
     why = str(fail.get('why') or '')
     if fail.get('kind') != 'counterexample':
         return None
-    m = re.match(r'op (\d+) .*slot names: ', why)
-    if m:
-        # narrow: a Selector declared without `objects` below a dict-declared Selector
-        op = case['ops'][int(m.group(1))]
-        decls = op['decls'] if op['op'] == 'declare' else [op['decl']]
-        if any(d['ptype'] == 'Selector' and 'objects' not in d['args'] for d in decls) and any(
-                isinstance(j.get('v'), dict) and 'd' in j['v'] for _, d in _decl_map(case) for k, j in d['args'].items() if k == 'objects'):
-            return 'selector-names-not-inherited'
     return None
